@@ -60,11 +60,28 @@ func c05Case(rt *rapid.T, col *collector) {
 		v := drv.B{S: "v", N: vn}
 		do(drv.Op{Op: drv.OpBulkPut, Path: bpath, Key: &pre, From: 0, To: count, KN: kn, Val: &v})
 	}
-	nested := rapid.IntRange(0, 3).Draw(rt, "nested")
+	nested := rapid.IntRange(0, 8).Draw(rt, "nested")
 	for i := 0; i < nested; i++ {
 		c2 := cfg
 		c2.Large = false
-		k := gen.Key(rt, e.RW.Model().Lookup([]string{"b"}), c2, ps)
+		var k drv.B
+		if count > 0 && rapid.IntRange(0, 2).Draw(rt, "nestedkind") > 0 {
+			// a name right next to a bulk key: nested buckets end up anywhere inside the tree, also as the
+			// first or last element of a leaf
+			base := drv.BulkKey(pre, rapid.IntRange(0, count-1).Draw(rt, "nestedat"), kn)
+			switch rapid.IntRange(0, 2).Draw(rt, "nestedsuffix") {
+			case 0:
+				k = drv.FromBytes(append(append([]byte{}, base...), 0))
+			case 1:
+				k = drv.FromBytes(append(append([]byte{}, base...), '~'))
+			default:
+				b := append([]byte{}, base...)
+				b[len(b)-1]--
+				k = drv.FromBytes(append(b, 0xff))
+			}
+		} else {
+			k = gen.Key(rt, e.RW.Model().Lookup([]string{"b"}), c2, ps)
+		}
 		do(drv.Op{Op: drv.OpCreateINE, Path: bpath, Key: &k})
 	}
 	do(drv.Op{Op: drv.OpCommit})
